@@ -2,7 +2,8 @@
 # tools/try_seed.sh <seed dir with patch.diff [+ seed_demo.rs]> <check ids...>
 # 1. confirms in a scratch worktree that the patch compiles, the baseline suite still passes and
 #    the demonstration fails with / passes without the patch;
-# 2. applies the patch to /repo, runs the named quick checks, and reverts /repo.
+# 2. runs the named quick checks from a copy of the harness that path-depends on that patched
+#    worktree (so /repo is never modified and other checks can run concurrently).
 set -u
 SEED="$(cd "$1" && pwd)"; shift
 W=/tmp/seed-confirm
@@ -19,14 +20,17 @@ if [ -f "$SEED/seed_demo.rs" ]; then
   rm -f "$W/tests/seed_demo.rs"
 fi
 VERIF_REPO="$W" /verif/baseline.sh; echo "baseline with patch: exit $? (expected 0)"
-echo "== run checks against /repo with the patch applied"
-git -C /repo diff --quiet || { echo "/repo has uncommitted changes; refusing"; exit 2; }
-git -C /repo apply "$SEED/patch.diff" || exit 2
+echo "== run checks against the patched worktree $W (harness copy in /tmp/seed-harness; /repo is not touched)"
+mkdir -p /tmp/seed-harness
+rsync -a --delete --exclude 'target-*' --exclude target /verif/harness/ /tmp/seed-harness/
+sed -i 's#path = "/repo"#path = "'"$W"'"#' /tmp/seed-harness/Cargo.toml
+grep -q "$W" /tmp/seed-harness/Cargo.toml || { echo "harness copy does not point at $W"; exit 2; }
 # evidence and replays of runs against a modified tree go to a scratch root, never into /verif
+export VERIF_HARNESS=/tmp/seed-harness
 export VERIF_OUT_ROOT=/tmp/seed-vroot; mkdir -p $VERIF_OUT_ROOT; cp /verif/known_findings.txt $VERIF_OUT_ROOT/
 for id in "$@"; do
   out=$(cd /verif && ./run "$id" quick 2>&1); code=$?
-  echo "-- $id exit=$code"; echo "$out" | grep -E "^(VIOLATION|KNOWN-FINDING|C[0-9]+ quick)" | cut -c1-260 | head -8
+  echo "-- $id exit=$code"; echo "$out" | grep -E "^(VIOLATION|KNOWN-FINDING|C[0-9]+ quick|machinery)" | cut -c1-260 | head -8
   echo "$out" | grep "violation sig" | cut -c1-400 | head -4
 done
-git -C /repo checkout -- . ; echo "== /repo restored: $(git -C /repo status --short | wc -l) changed files"
+git -C "$W" reset -q --hard; echo "== $W reset; /repo untouched: $(git -C /repo status --short | wc -l) changed files"
